@@ -205,6 +205,11 @@ func engineNT(w *World, tier string) *EngineResult {
 	r.Stats["may_return_nil_functions"] = len(may)
 	r.floor("lookup_call_sites", 60)
 	r.Stats["ae_function_evaluations"] = a.Evaluated + al.Evaluated
+	for k := range ntReviewed {
+		if _, used := r.Reviewed[k]; !used {
+			r.Notes = append(r.Notes, "reviewed entry without a matching site (stale): "+k)
+		}
+	}
 	r.finish()
 	return r
 }
@@ -437,6 +442,9 @@ func mayReturnNil(w *World) map[*ssa.Function]map[int]bool {
 						if nilCheckedTwin(w, src, b) {
 							continue // `if f(x) == nil { … }; return f(x)` on a pure accessor
 						}
+						if guardedByTupleFlag(src, b) {
+							continue // `if v, ok := f(x); ok { return v }`: the miss value is not handed on
+						}
 						if may[fn] == nil {
 							may[fn] = map[int]bool{}
 						}
@@ -480,6 +488,44 @@ func nilCheckedTwin(w *World, src *ssa.Call, b *ssa.BasicBlock) bool {
 		}
 		if (bo.Op == token.EQL && d.Succs[1] == cur) || (bo.Op == token.NEQ && d.Succs[0] == cur) {
 			return true
+		}
+	}
+	return false
+}
+
+// guardedByTupleFlag: block b is only reached through a test of another component of the
+// tuple src returns (a found flag, an error).
+func guardedByTupleFlag(src *ssa.Call, b *ssa.BasicBlock) bool {
+	if src.Referrers() == nil {
+		return false
+	}
+	flags := map[ssa.Value]bool{}
+	for _, ref := range *src.Referrers() {
+		if ex, ok := ref.(*ssa.Extract); ok {
+			flags[ex] = true
+		}
+	}
+	for cur := b; cur != nil && cur.Idom() != nil; cur = cur.Idom() {
+		d := cur.Idom()
+		iff, ok := d.Instrs[len(d.Instrs)-1].(*ssa.If)
+		if !ok || len(cur.Preds) != 1 || cur.Preds[0] != d {
+			continue
+		}
+		cond := iff.Cond
+		if u, ok := cond.(*ssa.UnOp); ok {
+			cond = u.X
+		}
+		if bo, ok := cond.(*ssa.BinOp); ok {
+			if flags[bo.X] || flags[bo.Y] {
+				if _, isT := bo.X.Type().Underlying().(*types.Pointer); !isT { // an error / flag test, not a test of the value itself
+					return true
+				}
+			}
+		}
+		if flags[cond] {
+			if bt, ok := cond.Type().Underlying().(*types.Basic); ok && bt.Kind() == types.Bool {
+				return true
+			}
 		}
 	}
 	return false
